@@ -510,3 +510,12 @@ _quick("C15", "C11_value", "(also under C11) a value operation carried by an ack
 _quick("C17", "C06_longrecycle", "(also under C06) long-expiry buckets emptied by releases and recycled: every program of 6 events, then the clock runs until every deadline is 3 s past: every hold has ended, LockedCount is back to 0 (a hold the sweep never pops is never reclaimed)", ["-witness", "50"], reach=["end"])
 
 _quick("C08", "C08_maxid", "the start of a replica-set member (Aof.LoadMaxAofId, whose failure fails ArbiterManager.Load and the start): append.aof.1 with two records and the newest file append.aof.2 (header + two records) cut at every byte 0..140: the call succeeds and reports the position of the last complete record of the log (of the older file when the newest holds none)", ["-witness", "10"], reach=["end", "newest-empty"])
+
+# --- round 11 ---
+_quick("C03", "C03_reconnect", "client id X: connection A announces X and queues 1..2 requests; X's next connection announces X before OR after the server closes the previous one (1..2 such hand-overs); each request is then granted, timed out or cancelled from the live connection: its one terminal reply arrives exactly once on the connection that speaks for X at that moment and on no closed one", ["-witness", "20"], reach=["end", "close-after-init"])
+_SWEEPJUMP = "the sweeper loops after a stall LONGER than one turn of the 16-slot second wheel: a wait (hold) of T = 60..75 s (symbolic) already in the long-wait (long-expiry) table at second 46 / 50 / 54; the clock then moves on at once to 0..40 s (symbolic) past the deadline; one real round of LockDB.checkTimeOut (checkExpried) (hook vfSingleRound) and the sweeps it starts: answered TIMEOUT (ended with one EXPRIED) by that round, nothing left queued, not granted afterwards (symbolic executor only)"
+_quick("C05", "C05_sweepjump", _SWEEPJUMP, ["-witness", "0"], native=False)
+_quick("C06", "C06_sweepjump", "(expiry twin of C05_sweepjump) " + _SWEEPJUMP, ["-witness", "0"], native=False)
+_quick("C09", "C09_fullsync", "leader side of a full transfer from the handshake on: 1..3 persisted records (a rotation after the first or not), the leader left running (records in the ring) or restarted through the real Aof.LoadAndInit (ring EMPTY); real ReplicationServer.handleInitSync on an empty-position SYNC, then the real sendFiles: the records sent from the files plus those the ring holds from the announced position on are the whole persisted log, each once, in log order (symbolic executor only)", ["-witness", "0"], reach=["end", "restarted"], native=False)
+_quick("C10", "C10_deferlong", "1..2 replicated holds of E = 150 / 300 / 400 s on a node in each non-leader state, clock advanced second by second through the real sweeps to 10 / 200 / 299 s past the DEADLINE: still held, no EXPRIED; the leader's release record is then applied", ["-witness", "1"], reach=["end"])
+_quick("C11", "C11_sharedrepeat", "a shared key (capacity 6) with a plain holder P and an ack-required lock A pending, in either order in the holder list; one further request from the hold's own or another connection: for A's LockId a LOCK (plain / re-entrant / update; symbolic Count, Expried, Rcount, with or without the require-ack flag) or an UNLOCK (all levels / symbolic Rcount and priority bit) - answered LOCK_ACK_WAITING, A's own request still unanswered, A's depth unchanged; for P's LockId - not answered LOCK_ACK_WAITING; then the leader's write and the follower's acknowledgement: A's request is answered SUCCED exactly once", ["-witness", "5"], reach=["end", "pending-lockid", "other-lockid"])
